@@ -21,6 +21,11 @@ type Config struct {
 	// contract files zz_contracts_verif.go are always loaded; zz_contracts_<tag>_verif.go only for the tags listed here
 	// (contracts of different properties for the same package live in separate files and do not see each other)
 	Tags []string `json:"contract_tags"`
+	// clause labels (prefixes) of postconditions / call-site requires clauses that this run leaves out, or the only ones it
+	// checks: several properties can share one contract file, each run deciding its own clauses. A clause that is left out
+	// is neither checked nor assumed. Preconditions, safety, frame and canary obligations are never filtered.
+	SkipLabels []string `json:"skip_labels"`
+	OnlyLabels []string `json:"only_labels"`
 }
 
 type KnownFinding struct {
@@ -72,6 +77,7 @@ func main() {
 	}
 	t0 := time.Now()
 	v := NewVerifier()
+	v.skipLabels, v.onlyLabels = cfg.SkipLabels, cfg.OnlyLabels
 	if err := v.Load(*repo, cfg.Packages, "verif"); err != nil {
 		fatal("load: %v", err)
 	}
